@@ -7,8 +7,8 @@ PROPERTY = 'C17'
 FUNCTIONS_ENCODED = ['pgradd.RDkitWrapper.GenRxnNet:GenerateRxnNet']
 BOUNDS = {
     'quick': 'n = 3 abstract species, 1 unimolecular rule with <= 2 products per species (targets symbolic), symbolic '
-             'over-valence flag per species, 1 seed; plus n = 2 with 2 rules and 2 seeds',
-    'thorough': 'n = 4 species, 1 rule; n = 3 species, 2 rules, 2 seeds',
+             'over-valence flag per species, 1 seed; n = 2 with 2 rules (1 product each) and 2 seeds',
+    'thorough': 'additionally n = 4 species, 1 rule, 2 products; n = 2 and n = 3 species, 2 rules, 2 seeds, 2 products',
 }
 STUBS = ['fake Chem/PeriodicTable in GenRxnNet: species are abstract ids; identity = mutual substructure test on ids; '
          'a rule is a symbolic successor relation; valence filter = symbolic flag per species',
@@ -182,10 +182,12 @@ def _split(name, base, n, to):
 
 def obligations(tier, seed):
     q = tier == 'quick'
-    to = 280 if q else 3000
+    to = 200 if q else 3000
     obs = _split('closure_n3_r1', dict(n=3, rules=1, seeds=1, width=2), 3, to)
-    obs += _split('closure_n2_r2_s2', dict(n=2, rules=2, seeds=2, width=2), 2, to)
+    obs.append(dict(name='closure_n2_r2_s2_w1', func='h_closure', param=dict(n=2, rules=2, seeds=2, width=1), timeout=to))
     if not q:
+        obs += _split('closure_n3_r2_s2_w1', dict(n=3, rules=2, seeds=2, width=1), 3, to)
+        obs += _split('closure_n2_r2_s2', dict(n=2, rules=2, seeds=2, width=2), 2, to)
         obs += _split('closure_n4_r1', dict(n=4, rules=1, seeds=1, width=2), 4, to)
         obs += _split('closure_n3_r2_s2', dict(n=3, rules=2, seeds=2, width=2), 3, to)
     return obs
